@@ -150,10 +150,14 @@ CONTRACTS = [
 # ---- bounded stand-in: map / array laws on small maps and arrays ------------------------------------
 
 KEYS = ['1', '1.0', '1e0', '2', '"a"', 'xs:anyURI("a")', 'xs:untypedAtomic("a")', '"b"', 'true()', 'xs:date("2000-01-01")',
-        'xs:time("12:00:00")', 'xs:double("NaN")', 'xs:float("NaN")']
+        'xs:time("12:00:00")', 'xs:double("NaN")', 'xs:float("NaN")', 'xs:dateTime("2000-01-01T00:00:00")']
 FAMILY = {'1': ('num', 1), '1.0': ('num', 1), '1e0': ('num', 1), '2': ('num', 2), '"a"': ('str', 'a'), 'xs:anyURI("a")': ('str', 'a'),
           'xs:untypedAtomic("a")': ('str', 'a'), '"b"': ('str', 'b'), 'true()': ('bool', True), 'xs:date("2000-01-01")': ('date', 1),
-          'xs:time("12:00:00")': ('time', 1), 'xs:double("NaN")': ('num', 'NaN'), 'xs:float("NaN")': ('num', 'NaN')}
+          'xs:time("12:00:00")': ('time', 1), 'xs:double("NaN")': ('num', 'NaN'), 'xs:float("NaN")': ('num', 'NaN'),
+          'xs:dateTime("2000-01-01T00:00:00")': ('dateTime', 1)}
+# pairs of key types whose Python values are equal with equal hashes although op:same-key is false (one root cause each, see known_findings.json)
+COLLIDING = {frozenset(('bool', 'num')): 'xs:boolean true() and the number 1 are the same key of the underlying dict',
+             frozenset(('date', 'dateTime')): 'an xs:date and the xs:dateTime of its starting instant are the same key of the underlying dict'}
 
 
 def same_key_spec(a, b):
@@ -182,16 +186,21 @@ def bounded_maps_arrays(tier, seed):
             wl = want if isinstance(want, list) else [want]
             ok = got[0] == 'return' and gl == wl and all(type(a) is type(b) for a, b in zip(gl, wl))
         if not ok:
-            if fam[0] == 'pair' and {fam[1], fam[2]} == {'bool', 'num'}:
+            if fam[0] == 'pair' and frozenset((fam[1], fam[2])) in COLLIDING:
                 # one aggregated failure for the whole family (see known_findings.json)
-                if not boolnum:
-                    boolnum.append({'key': 'map keys: xs:boolean true() and the number 1 are the same key of the underlying dict',
-                                    'what': f'`{expr}` = {got!r}; op:same-key(true(), 1) is false, the laws give {want!r}',
+                # one failure per law (expression template) for this family, so that a law that holds today is still watched
+                import re as _re
+                law = _re.sub(r'xs:\w+\("[^"]*"\)|true\(\)|"[^"]*"|\b\d+(\.\d+|e\d+)?\b', '_', expr)
+                root = COLLIDING[frozenset((fam[1], fam[2]))]
+                if (root, law) not in boolnum_laws:
+                    boolnum_laws.add((root, law))
+                    boolnum.append({'key': f'map keys: {root} [{law}]'[:200],
+                                    'what': f'`{expr}` = {got!r}; op:same-key of the two keys is false, the laws give {want!r}',
                                     'expr': expr, 'want': repr(want)})
             elif len(fails) < 40:
                 fails.append({'key': expr[:150], 'what': f'`{expr}` = {got!r}; the map/array laws give {want!r}', 'expr': expr,
                               'want': repr(want)})
-    boolnum = []
+    boolnum, boolnum_laws = [], set()
     ks = KEYS if tier == 'thorough' else KEYS
     for k1 in ks:
         m1 = f'map:entry({k1}, "v1")'
@@ -216,9 +225,10 @@ def bounded_maps_arrays(tier, seed):
             check(f'deep-equal(map:put({m1}, {k2}, "v1"), {m1})', sk, fam)
         # a three-key map with keys of non-comparable types
         check(f'map:contains(map:merge((map:entry(xs:date("2000-01-01"), 1), map:entry(xs:time("12:00:00"), 2), {m1})), {k1})',
-              True, ('mixed', FAMILY[k1][0]))
+              True, ('mixed', FAMILY[k1][0]) if FAMILY[k1][0] != 'dateTime' else ('pair', 'date', 'dateTime', False))
         check(f'map:get(map:merge((map:entry(xs:time("12:00:00"), 2), map:entry(xs:date("2000-01-01"), 1), {m1})), {k1})',
-              'v1' if FAMILY[k1][0] not in ('date', 'time') else (1 if FAMILY[k1][0] == 'date' else 2), ('mixed', FAMILY[k1][0]))
+              'v1' if FAMILY[k1][0] not in ('date', 'time') else (1 if FAMILY[k1][0] == 'date' else 2),
+              ('mixed', FAMILY[k1][0]) if FAMILY[k1][0] != 'dateTime' else ('pair', 'date', 'dateTime', False))
     # arrays against the list model
     for items in ([], [1], [1, 2], [1, 2, 3], ['a', 'b', 'c', 'd']):
         lit = '[' + ', '.join(repr(x).replace("'", '"') for x in items) + ']'
@@ -251,6 +261,19 @@ def bounded_maps_arrays(tier, seed):
                 else:
                     want = items[p - 1:p - 1 + ln]
                 check(f'array:subarray({lit}, {p}, {ln})?*', want, fam)
+    # merge policy 'combine' concatenates sequences and leaves the operands alone; array:sort against sorted()
+    check('let $m := map{"a": (1, 2)} return (map:merge(($m, map{"a": 3}), map{"duplicates": "combine"})?a, "|", $m?a)', [1, 2, 3, '|', 1, 2], ('combine', 1))
+    check('map:merge((map{"a": (1, 2)}, map{"a": (3, 4)}, map{"a": 5}), map{"duplicates": "combine"})?a', [1, 2, 3, 4, 5], ('combine', 2))
+    check('count(map:merge((map{"a": [1]}, map{"a": [2]}), map{"duplicates": "combine"})?a)', 2, ('combine', 3))
+    check('map:merge((map{"a": ()}, map{"a": 2}, map{"b": 1}), map{"duplicates": "combine"})?a', 2, ('combine', 4))
+    check('let $m := map{"a": 1}, $n := map{"a": 2} return (map:merge(($m, $n), map{"duplicates": "use-last"})?a, $m?a, $n?a)', [2, 1, 2], ('combine', 5))
+    for items in ([3, 1, 2], [2, 2, 1], ['b', 'a'], []):
+        lit = '[' + ', '.join(repr(x).replace("'", '"') for x in items) + ']'
+        check(f'array:sort({lit})?*', sorted(items), ('sort', len(items)))
+        check(f'let $a := {lit} return (array:sort($a)?*, "|", $a?*)', sorted(items) + ['|'] + items, ('sort', len(items)))
+        check(f'let $a := {lit}, $m := map{{"k": $a}} return (array:size(array:sort($m?k)), $m?k?*)', [len(items)] + items, ('sort', len(items)))
+    check('array:sort([3, 1, 2], (), function($x) { -$x })?*', [3, 2, 1], ('sort', 'key'))
+    check('array:sort([(2, 1), (1, 5)])?*', [1, 5, 2, 1], ('sort', 'seq'))
     # lookups over sequences of maps / arrays
     check('([10, 20], [30, 40])?(1, 2)', [10, 20, 30, 40], ('lookup', 1))
     check('([10, 20], [30, 40])?(2)', [20, 40], ('lookup', 2))
